@@ -290,6 +290,28 @@ theorem C03_grant_stable (kind : Kind) (as : List Act) (a : Act) (w : Nat) (wd :
   refine ⟨by rw [hs_step_other s a w ha hf, hw], ?_⟩
   rw [hold_step_other s a w wd (inv_reachable kind as) hw ha hf, hh, Bool.true_or]
 
+theorem grant_stable_run (as : List Act) : ∀ (s : State), Inv s → ∀ (w : Nat) (wd : Handle), s.hs w = some wd →
+    hold s w wd.key = true → (∀ a ∈ as, a.actor ≠ some w ∧ w ∉ a.fresh) →
+    (run s as).hs w = some wd ∧ hold (run s as) w wd.key = true := by
+  induction as with
+  | nil => intro s _ w wd h1 h2 _; exact ⟨h1, h2⟩
+  | cons a as ih =>
+    intro s hi w wd h1 h2 hall
+    have ha := hall a (by simp)
+    have e1 : (step s a).1.hs w = some wd := by rw [hs_step_other s a w ha.1 ha.2, h1]
+    have e2 : hold (step s a).1 w wd.key = true := by
+      rw [hold_step_other s a w wd hi h1 ha.1 ha.2, h2, Bool.true_or]
+    have := ih (step s a).1 (inv_step s a hi) w wd e1 e2 (fun b hb => hall b (List.mem_cons_of_mem _ hb))
+    simpa [run, List.foldl] using this
+
+/-- **… for as long as the others run**: the grant survives every finite run of other parties' actions, in any interleaving — it
+ends only by an action of `w` itself (its poll, which makes it the guard, or its cancellation, which hands the mutex on). -/
+theorem C03_grant_stable_run (kind : Kind) (pre as : List Act) (w : Nat) (wd : Handle) :
+    let s := run (State.init kind) pre
+    s.hs w = some wd → hold s w wd.key = true → (∀ a ∈ as, a.actor ≠ some w ∧ w ∉ a.fresh) →
+    (run s as).hs w = some wd ∧ hold (run s as) w wd.key = true :=
+  fun h1 h2 hall => grant_stable_run as _ (inv_reachable kind pre) w wd h1 h2 hall
+
 /-- **Ownership arrives by hand-off only**: if the mutex of `w`'s key is `w`'s after somebody else's action and was not before, that
 action was the release of the key's guard (or the clean-up of a cancelled owner-to-be) that completed normally, and `w` was the oldest
 waiter of that key. Together with `C03_handoff` (the release *does* hand over) and `C03_grant_stable` this is "a waiter acquires the
